@@ -16,9 +16,14 @@ PROOF_FILE = None          # generation must precede the proof: run() calls lib.
 LEVEL = "proof"
 RULE = ("complete enumeration of every descriptor element of api/v3 and api/v3alpha (messages at any nesting depth, "
         "fields, oneofs, enums, enum values, services, methods, http bindings), of the declarations of both api.proto "
-        "files, of Insights_ServiceDesc / FullMethodName constants / client+server interfaces, and of the "
-        "resolve.System constants; an element is counted once per relation it takes part in, and is distinct by "
-        "(relation, version, descriptor path)")
+        "files, of the Go enum constants and protobuf struct tags of both api.pb.go, of Insights_ServiceDesc / "
+        "FullMethodName constants / client+server interfaces, and of the "
+        "resolve.System constants; an element is counted once per relation it takes part in; it is distinct by (relation, "
+        "version, descriptor path) and NON-TRIVIAL when deciding it needs more than literal equality: a field with a "
+        "message/enum type (package renaming, scope resolution in the parser), a JSON name differing from the field "
+        "name, oneof membership, a nested message or enum (recursion, Go identifier derivation), a message with nested "
+        "declarations, a service, a method, an http binding (version-prefix renaming), a FullMethodName constant, a struct "
+        "tag carrying json= or enum=, a resolve.System constant")
 TRUSTED = [
     "Coq 8.16.1 kernel (+vm_compute); coqchk on the closure of Properties/C17 in the thorough tier",
     "translator harness/go/apidesc (cmd/apidesc_v3, cmd/apidesc_v3alpha): prints what protoreflect, go/ast and its "
@@ -45,8 +50,9 @@ MANIFEST = dict(
           "ServiceDesc/FullMethodName/interface method lists of the _grpc.pb.go files and the resolve.System constants. "
           "Theorems by kernel computation lifted through soundness lemmas to the quantified statements: every v3 "
           "message (recursively), field, oneof, enum value, service and method exists identically in v3alpha up to "
-          "package name and /v3/ -> /v3alpha/; embedded descriptor = parsed .proto for both versions; gRPC method "
-          "lists = descriptor methods; resolve.System numbers = API System enum numbers. Finite domain, exhaustive."),
+          "package name and /v3/ -> /v3alpha/; embedded descriptor = parsed .proto for both versions; Go enum constants "
+          "and protobuf struct tags of api.pb.go = those derived from the descriptor (GoCamelCase, tag.Marshal modelled); "
+          "gRPC method lists = descriptor methods; resolve.System numbers = API System enum numbers. Finite domain, exhaustive."),
     note=("Trusted: Coq kernel (+vm_compute), the translator harness/go/apidesc (protoreflect reader, hand-written proto3 "
           "parser following protoc's name scoping and json_name rules, go/ast readers) which prints what it reads and "
           "computes no verdict. Not modelled: options other than go_package/google.api.http/json_name/map_entry, "
@@ -106,10 +112,12 @@ class Oracle:
         self.ctx = ctx
         self.n = 0
 
-    def seen(self, rel, path):
+    def seen(self, rel, path, nt=False):
+        """one element compared under one relation; nt: deciding it needs more than literal equality (see RULE)"""
         self.n += 1
         self.ctx.count(rel)
-        self.ctx.nontriv((rel, path))
+        if nt:
+            self.ctx.nontriv((rel, path))
 
     def bad(self, what, path, observed, required):
         self.ctx.violation(what, path, observed=observed, required=required)
@@ -121,7 +129,7 @@ class Oracle:
         if b is None and isinstance(a, list):
             b = []
         if isinstance(a, dict) and isinstance(b, dict):
-            self.seen(rel, path)
+            self.seen(rel, path, interesting(a))
             for k in a:
                 self.eq(rel, path + "." + k, a[k], b.get(k), what)
             return
@@ -145,7 +153,7 @@ class Oracle:
 
     # ---- superset
     def sub_enum(self, path, e, cands, va, vb):
-        self.seen("superset:enum", path)
+        self.seen("superset:enum", path, path.count(".") > 1)
         same = [c for c in cands if c["name"] == e["name"]]
         if not same:
             self.bad("enum of %s missing in %s" % (va, vb), path, observed="absent", required=brief(e))
@@ -158,7 +166,7 @@ class Oracle:
                          observed=brief(other) if other else "absent", required=brief(v))
 
     def sub_msg(self, path, m, cands, ren_type, va, vb):
-        self.seen("superset:message", path)
+        self.seen("superset:message", path, path.count(".") > 1 or bool(m["nested"] or m["enums"]))
         same = [c for c in cands if c["name"] == m["name"]]
         if not same:
             self.bad("message of %s missing in %s" % (va, vb), path, observed="absent", required="message " + m["name"])
@@ -168,7 +176,7 @@ class Oracle:
             self.bad("message of %s differs in %s" % (va, vb), path + ".map_entry", c["map_entry"], m["map_entry"])
         for f in m["fields"] or []:
             fp = "%s.field %s" % (path, f["name"])
-            self.seen("superset:field", fp)
+            self.seen("superset:field", fp, interesting(f))
             rf = dict(f, type_name=ren_type(f["type_name"]))
             if rf in (c["fields"] or []):
                 continue
@@ -181,7 +189,7 @@ class Oracle:
                 diffs = ["%s %s vs %s" % (k, brief(rf[k]), brief(g[k])) for k in rf if rf[k] != g.get(k)]
                 self.bad("field of %s differs in %s" % (va, vb), fp + " " + "; ".join(diffs), observed=brief(g), required=brief(rf))
         for o in m["oneofs"] or []:
-            self.seen("superset:oneof", path + ".oneof " + o)
+            self.seen("superset:oneof", path + ".oneof " + o, True)
             if o not in (c["oneofs"] or []):
                 self.bad("oneof of %s missing in %s" % (va, vb), path + ".oneof " + o, "absent", o)
         for e in m["enums"] or []:
@@ -202,17 +210,17 @@ class Oracle:
             self.sub_enum("%s.%s" % (va, e["name"]), e, b["enums"] or [], va, vb)
         for s in a["services"] or []:
             sp = "%s.%s" % (va, s["name"])
-            self.seen("superset:service", sp)
+            self.seen("superset:service", sp, True)
             same = [c for c in (b["services"] or []) if c["name"] == s["name"]]
             if not same:
                 self.bad("service of %s missing in %s" % (va, vb), sp, "absent", "service " + s["name"])
                 continue
             for me in s["methods"] or []:
                 mp = "%s.rpc %s" % (sp, me["name"])
-                self.seen("superset:method", mp)
+                self.seen("superset:method", mp, True)
                 rm = dict(me, input=ren_type(me["input"]), output=ren_type(me["output"]))
                 if me["http"] is not None:
-                    self.seen("superset:http", mp + ".http")
+                    self.seen("superset:http", mp + ".http", True)
 
                     def rb_(h):
                         return dict(h, path=ren_path(h["path"]),
@@ -256,7 +264,7 @@ class Oracle:
                           ("client_interface", names), ("server_interface", names)):
             got = g[key] or []
             for i in range(max(len(got), len(want))):
-                self.seen("grpc:" + key, "%s %s[%d]" % (path, key, i))
+                self.seen("grpc:" + key, "%s %s[%d]" % (path, key, i), key == "full_method_names")
                 a = got[i] if i < len(got) else "absent"
                 b = want[i] if i < len(want) else "absent"
                 if a != b:
@@ -271,7 +279,7 @@ class Oracle:
         enums = [e for e in (f["enums"] or []) if e["name"] == "System"]
         for c in rs or []:
             path = "util/resolve/resolve.go const %s = %s  against api/%s enum System" % (c["name"], c["expr"], v)
-            self.seen("system", "%s:%s" % (v, c["name"]))
+            self.seen("system", "%s:%s" % (v, c["name"]), True)
             api = "SYSTEM_UNSPECIFIED" if c["name"] == "UnknownSystem" else c["name"].upper()
             nums = [w["number"] for e in enums for w in (e["values"] or []) if w["name"] == api]
             if c["value"] is None:
@@ -280,6 +288,130 @@ class Oracle:
                 self.bad("resolve.System constant differs from the API enum number", path,
                          observed="%s = %d" % (c["name"], c["value"]),
                          required=("System.%s = %d" % (api, nums[0])) if nums else "an enum value System.%s" % api)
+
+
+# ---- the Go declarations protoc-gen-go derives from a descriptor (mirror of coq/Api/GoCode.v)
+
+def go_camel(s):
+    out = []
+    i = 0
+    n = len(s)
+    low = lambda c: "a" <= c <= "z"
+    while i < n:
+        c = s[i]
+        if c == "." and i + 1 < n and low(s[i + 1]):
+            pass
+        elif c == ".":
+            out.append("_")
+        elif c == "_" and (i == 0 or s[i - 1] == "."):
+            out.append("X")
+        elif c == "_" and i + 1 < n and low(s[i + 1]):
+            pass
+        elif c.isdigit():
+            out.append(c)
+        else:
+            out.append(c.upper() if low(c) else c)
+            while i + 1 < n and low(s[i + 1]):
+                out.append(s[i + 1])
+                i += 1
+        i += 1
+    return "".join(out)
+
+
+def go_tag(syntax, pkg, f):
+    k = f["kind"]
+    wire = ("varint" if k in ("bool", "enum", "int32", "uint32", "int64", "uint64") else
+            "zigzag32" if k == "sint32" else "zigzag64" if k == "sint64" else
+            "fixed32" if k in ("sfixed32", "fixed32", "float") else
+            "fixed64" if k in ("sfixed64", "fixed64", "double") else
+            "bytes" if k in ("string", "bytes", "message") else "group")
+    t = [wire, str(f["number"]), {3: "rep", 2: "req"}.get(f["cardinality"], "opt")]
+    p3 = syntax == "proto3"
+    if f["cardinality"] == 3 and k not in ("string", "bytes", "message", "group") and p3:
+        t.append("packed")
+    t.append("name=" + f["name"])
+    if f["json_name"] and f["json_name"] != f["name"]:
+        t.append("json=" + f["json_name"])
+    if p3:
+        t.append("proto3")
+    if k == "enum":
+        ty = f["type_name"]
+        t.append("enum=" + (pkg + "." + go_camel(ty[len(pkg) + 1:]) if ty.startswith(pkg + ".") else ty))
+    if f["oneof"] is not None:
+        t.append("oneof")
+    return ",".join(t)
+
+
+def struct_fields(syntax, pkg, fs):
+    out, seen = [], []
+    for f in fs or []:
+        if f["oneof"] is not None and not f["optional_keyword"]:
+            if f["oneof"] not in seen:
+                seen.append(f["oneof"])
+                out.append(("", f["oneof"], "oneof " + f["oneof"]))
+        else:
+            out.append((go_tag(syntax, pkg, f), "", "field " + f["name"]))
+    return out
+
+
+def gocode(o, v, f, ges, gss):
+    src = "api/%s/api.pb.go" % v
+    ges = {g["go_type"]: g for g in ges or []}
+    gss = {g["go_type"]: g for g in gss or []}
+
+    def enum(scope, e):
+        ty = go_camel(scope + e["name"])
+        pre = ty if scope == "" else go_camel(scope[:-1])
+        path = "%s enum %s (type %s)" % (src, scope + e["name"], ty)
+        o.seen("gocode:enum", path, scope != "")
+        want = [{"name": pre + "_" + w["name"], "number": w["number"]} for w in e["values"] or []]
+        g = ges.get(ty)
+        if g is None:
+            o.bad("Go enum type missing in the generated code", path, "absent", want[:8])
+            return
+        got = g["consts"] or []
+        for i in range(max(len(got), len(want))):
+            a = got[i] if i < len(got) else "absent"
+            w = want[i] if i < len(want) else "absent"
+            o.seen("gocode:enum_const", "%s const[%d]" % (path, i))
+            if a != w:
+                o.bad("Go enum constant differs from the descriptor", "%s const[%d]" % (path, i), observed=a, required=w)
+
+    def msg(scope, m):
+        if m["map_entry"]:
+            return
+        ty = go_camel(scope + m["name"])
+        path = "%s struct %s (message %s)" % (src, ty, scope + m["name"])
+        o.seen("gocode:struct", path, scope != "")
+        want = struct_fields(f["syntax"], f["package"], m["fields"])
+        g = gss.get(ty)
+        if g is None:
+            o.bad("Go struct missing in the generated code", path, "absent", [w[:2] for w in want][:8])
+        else:
+            got = [(x["tag"], x["oneof_tag"], x["go_name"]) for x in g["fields"] or []]
+            for i in range(max(len(got), len(want))):
+                a = got[i] if i < len(got) else ("absent", "", "")
+                w = want[i] if i < len(want) else ("absent", "", "")
+                o.seen("gocode:struct_tag", "%s tag[%d]" % (path, i), "json=" in w[0] or "enum=" in w[0] or not w[0])
+                if a[:2] != w[:2]:
+                    o.bad("protobuf struct tag differs from the descriptor", "%s %s / Go field %s" % (path, w[2], a[2]),
+                          observed=a[0] or ("protobuf_oneof:" + a[1]), required=w[0] or ("protobuf_oneof:" + w[1]))
+        for e in m["enums"] or []:
+            enum(scope + m["name"] + ".", e)
+        for x in m["nested"] or []:
+            msg(scope + m["name"] + ".", x)
+
+    for e in f["enums"] or []:
+        enum("", e)
+    for m in f["messages"] or []:
+        msg("", m)
+
+
+def interesting(x):
+    """a descriptor element whose comparison exercises renaming, name scoping, derived names or recursion"""
+    return bool(x.get("type_name") or x.get("nested") or x.get("enums") or x.get("http") or "verb" in x or
+                "input" in x or x.get("oneof") is not None or x.get("optional_keyword") or
+                ("json_name" in x and x["json_name"] != x["name"]) or "methods" in x or "messages" in x)
 
 
 def norm_method(m):
@@ -333,6 +465,7 @@ def oracle(ctx, data):
             o.eq("gen:" + v, "api/%s" % v, d["emb"], d["proto"],
                  "generated Go code of api/%s (embedded descriptor) differs from api.proto" % v)
         o.grpc(v, d["emb"], d["grpc"])
+        gocode(o, v, d["emb"], d.get("go_enums"), d.get("go_structs"))
         ctx.count("elements:" + v, count_elements(d["emb"]))
     if "v3" in data:
         for v in VERSIONS:
